@@ -5,7 +5,7 @@ use std::collections::{HashMap, HashSet};
 use std::fs;
 use std::sync::atomic::{AtomicBool, AtomicU64, Ordering};
 use std::sync::mpsc;
-use std::sync::{Arc, RwLock};
+use std::sync::{Arc, Mutex, RwLock};
 use std::thread;
 use std::time::Duration;
 
@@ -162,6 +162,9 @@ pub struct TopicCleanTracker {
     states: RwLock<HashMap<String, Arc<TopicCleanState>>>,
     store: Arc<CleanMarkerStore>,
     persist_tx: mpsc::Sender<String>,
+    /// Held from the snapshot of the states to the end of the file write; `true` once the
+    /// owner has flushed for shutdown (the persister must not write after that).
+    persist_gate: Mutex<bool>,
 }
 
 impl TopicCleanTracker {
@@ -171,6 +174,7 @@ impl TopicCleanTracker {
             states: RwLock::new(HashMap::new()),
             store,
             persist_tx: tx,
+            persist_gate: Mutex::new(false),
         });
         Self::spawn_persister(&tracker, rx);
         tracker
@@ -261,6 +265,10 @@ impl TopicCleanTracker {
         if topics.is_empty() {
             return Ok(());
         }
+        let closed = self.persist_gate.lock().unwrap_or_else(|e| e.into_inner());
+        if *closed {
+            return Ok(());
+        }
         let mut updates = Vec::with_capacity(topics.len());
         if let Ok(guard) = self.states.read() {
             for topic in topics {
@@ -270,6 +278,23 @@ impl TopicCleanTracker {
             }
         }
         self.store.persist_updates(&updates)
+    }
+
+    /// Write every marker now and stop the background persister from writing afterwards.
+    /// Called when the owning `Walrus` is dropped: changes the persister has not picked up
+    /// yet would otherwise be lost, and a write it has in flight could land after a new
+    /// instance has read the file.
+    pub fn flush_and_close(&self) -> std::io::Result<()> {
+        let mut closed = self.persist_gate.lock().unwrap_or_else(|e| e.into_inner());
+        *closed = true;
+        let snapshot = match self.states.read() {
+            Ok(guard) => guard
+                .iter()
+                .map(|(topic, state)| (topic.clone(), state.snapshot()))
+                .collect::<Vec<_>>(),
+            Err(_) => return Ok(()),
+        };
+        self.store.persist_updates(&snapshot)
     }
 
     #[cfg(test)]
